@@ -110,7 +110,7 @@ def main():
             continue
         try:
             todo = ALL if a.all_checks else [target]
-            with ThreadPoolExecutor(max_workers=6) as ex:
+            with ThreadPoolExecutor(max_workers=10) as ex:
                 rs = list(ex.map(run_check, todo))
             rec.setdefault("results", {}).update(dict(zip(todo, rs)))
             if a.thorough_on_miss and rec["results"][target]["exit"] != 1:
